@@ -74,6 +74,7 @@ type Session struct {
 	Prog       *ssa.Program
 	Fn         *ssa.Function
 	Harness    string
+	Arg        *string // optional single string argument of the harness function
 	Sizes      types.Sizes
 	PropPrefix string // only assertions labelled "<PropPrefix>/..." or unprefixed are checked
 	FloatMode  string // "ieee" | "grid"
@@ -380,6 +381,19 @@ func (ex *Explorer) concretize(v symv) value {
 		ex.assertTerm(eq)
 		return goInt(v.bk, k)
 	}
+}
+
+// concretizeIn case-splits v over [lo,hi]; every value below lo is represented
+// by lo-1 and every value above hi by hi+1 (one path each), which is enough for
+// bounds-checked uses: the operation that follows panics exactly as in Go.
+func (ex *Explorer) concretizeIn(v symv, lo, hi int64) value {
+	if ex.decide(mkBool(ex, "(< "+v.e+" "+ilit(lo)+")")) {
+		return goInt(v.bk, big.NewInt(lo-1))
+	}
+	if ex.decide(mkBool(ex, "(> "+v.e+" "+ilit(hi)+")")) {
+		return goInt(v.bk, big.NewInt(hi+1))
+	}
+	return ex.concretize(v)
 }
 
 func parseIntValue(s string) *big.Int {
@@ -723,7 +737,11 @@ func (ex *Explorer) RunPath(prefix []Dec) (outcome string) {
 	}()
 
 	call(i, nil, token.NoPos, s.Fn.Pkg.Func("init"), nil)
-	call(i, nil, token.NoPos, s.Fn, nil)
+	if s.Arg != nil {
+		call(i, nil, token.NoPos, s.Fn, []value{*s.Arg})
+	} else {
+		call(i, nil, token.NoPos, s.Fn, nil)
+	}
 	return "ok"
 }
 
